@@ -134,6 +134,18 @@ def run (j : Json) : Except String Json := do
   let scratch ← scratchOfJson j
   let opts : DeserOpts := { keepUndefined := ← optBool j "keepUndefined" true,
                             ignoreInvalidAddl := ← optBool j "ignoreInvalidAddl" true }
+  -- a class typedpy derived (Partial / AllFieldsRequired / Extend / Omit / Pick): its NAME is the model's
+  let via ← optStr j "via"
+  let viaName ← optStr j "viaName"
+  let baseName := ((← optStr j "baseName").getD "").toList
+  let derive : Option Derive := match via with
+    | some "partial" => some .partialOf | some "allrequired" => some .allRequired
+    | some "extend" => some .extend | some "omit" => some .omit | some "pick" => some .pick
+    | _ => none
+  let decl : FieldDecl := match decl, derive with
+    | FieldDecl.struct c fields dflt, some d =>
+      FieldDecl.struct { c with name := String.ofList (derivedName d (viaName.map (·.toList)) baseName) } fields dflt
+    | d, _ => d
   match decl with
   | .struct c fields _ =>
     -- the document as handed to the real code (document keys), re-keyed through the mapper
@@ -185,6 +197,7 @@ def run (j : Json) : Except String Json := do
     let base := [("p1sites", Json.arr p1Json.toArray),
                  ("invalid", Json.arr (invalid.map Json.str).toArray),
                  ("flat", Json.bool flat),
+                 ("clsName", Json.str c.name),
                  ("path", Json.bool pathOk),
                  ("kind", Json.str kind),
                  ("sites", Json.arr (expected.map (siteToJson cls)).toArray),
